@@ -201,6 +201,14 @@ func (p *Proxy) handleRangeRequest(r responder.Responder, req *http.Request, cac
 	return finalizeAndRespond(r, sections, http.StatusPartialContent, req)
 }
 
+// Tells the client that byte ranges are served, unless the origin said something about ranges itself
+// (an origin that answers "Accept-Ranges: none" is relayed as it is).
+func advertiseRanges(r responder.Responder) {
+	if r.GetHeaders().Get("Accept-Ranges") == "" {
+		r.SetHeader("Accept-Ranges", "bytes")
+	}
+}
+
 // Hands the client the validators stored with the entry, and only those the origin actually sent.
 func setStoredValidators(r responder.Responder, cached *cache.Entry[cachedRequestInfo]) {
 	if cached.Metadata.Object.ETag != "" {
@@ -244,7 +252,7 @@ func (p *Proxy) processRequest(r responder.Responder, req *http.Request, key cac
 
 		r.SetHeaders(fetched.Direct.Response.Header)
 		if fetched.Direct.UpstreamStatus >= 200 && fetched.Direct.UpstreamStatus < 300 {
-			r.SetHeader("Accept-Ranges", "bytes")
+			advertiseRanges(r)
 			addCacheHeaders(r, req, typeutils.None[*cache.Entry[cachedRequestInfo]](), fetchResultToCacheStatus(fetched))
 		}
 
@@ -275,7 +283,7 @@ func (p *Proxy) processRequest(r responder.Responder, req *http.Request, key cac
 		}
 
 		r.SetHeaders(fetched.Cached.Entry.Metadata.Object.Header)
-		r.SetHeader("Accept-Ranges", "bytes")
+		advertiseRanges(r)
 		setStoredValidators(r, fetched.Cached.Entry)
 		addCacheHeaders(r, req, typeutils.Some(fetched.Cached.Entry), fetchResultToCacheStatus(fetched))
 
